@@ -760,6 +760,8 @@ impl AutosarModel {
         for element in self.root_element().sub_elements() {
             copy.root_element().create_copied_sub_element(&element)?;
         }
+        // the root element itself is not copied, so its comment must be transferred separately
+        copy.root_element().set_comment(self.root_element().comment());
 
         // `create_copied_sub_element` does not transfer information about file membership
         // this needs to be added back
